@@ -156,7 +156,11 @@ fn main() {
         Some("check") => {
             evidence::init_stdout();
             let prop = args.get(2).cloned().unwrap_or_default();
-            let code = if args.get(3).map(|s| s.as_str()) == Some("--replay") {
+            let prop_for_err = prop.clone();
+            let args2 = args.clone();
+            let run = std::panic::catch_unwind(move || {
+                let args = args2;
+                if args.get(3).map(|s| s.as_str()) == Some("--replay") {
                 let path = args.get(4).cloned().unwrap_or_default();
                 let engine = std::fs::read_to_string(&path).ok().and_then(|t| serde_json::from_str::<Value>(&t).ok()).and_then(|v| v.get("engine").and_then(|e| e.as_str()).map(|s| s.to_string()));
                 match engine.as_deref() {
@@ -179,9 +183,18 @@ fn main() {
                     }
                     _ => sweep::replay(&prop, &path),
                 }
-            } else {
-                let tier = args.get(3).cloned().or_else(|| std::env::var("VERIF_TIER").ok()).unwrap_or_else(|| "quick".into());
-                check(&prop, &tier)
+                } else {
+                    let tier = args.get(3).cloned().or_else(|| std::env::var("VERIF_TIER").ok()).unwrap_or_else(|| "quick".into());
+                    check(&prop, &tier)
+                }
+            });
+            let code = match run {
+                Ok(c) => c,
+                Err(_) => {
+                    // a panic of the harness itself is a machinery error, never a verdict
+                    let p = pool::take_last_panic_any_thread();
+                    evidence::machinery_error(&prop_for_err, &format!("harness panicked: {:?}", p));
+                }
             };
             std::process::exit(code);
         }
